@@ -265,6 +265,16 @@ class Var:
         return len(self.dims)
 
     @property
+    def size(self):
+        n = 1
+        for d in self.dims:
+            k = self._sizes.get(d)
+            if not isinstance(k, int):
+                raise Unsupported(f'size of a variable whose length along {d!r} is symbolic')
+            n *= k
+        return n
+
+    @property
     def dim(self):
         if len(self.dims) != 1:
             raise DimensionError(f'Expected 1 dimension, got {len(self.dims)}')
